@@ -8,7 +8,7 @@ from contracts import spec as S
 IA = z3.ArraySort(z3.IntSort(), z3.IntSort())
 
 
-@unit('sample.sample_lhs.counts', props=('C14',))
+@unit('sample.sample_lhs.counts', props=('C14', 'C20'))
 def u_lhs(U):
     """C14: Latin-hypercube sampling uses every index of a mode either floor(m/n) or ceil(m/n) times; the result is an
     integer array of shape (m, d) inside the bounds; every draw goes through the seeded generator (C10)."""
